@@ -23,10 +23,10 @@ SYMBOLS = {'usd': '$', 'eur': '€', 'try': '₺'}
 
 
 def alias_words():
-    """ASCII alias words usable right after an amount -> code"""
+    """alias words (any script) usable right after an amount -> code"""
     out = {}
     for w, code in lex.currency_alias().items():
-        if w.isascii() and w.isalpha() and len(w) >= 2:
+        if w.isalpha() and len(w) >= 2:
             out[w] = code
     return out
 
